@@ -194,6 +194,34 @@ def main(argv):
                 entry["replay"] = path
                 target.append(entry)
 
+    # ---------------- findings that live in a pinned dependency: no function of /repo can carry an obligation for them; a listed finding of
+    # this kind is tied to a mechanical scan of the current tree (dependency version in Cargo.lock AND the unguarded call sites): it is
+    # reported while the scan still matches and silently disappears once the tree no longer has the pattern.  A scan never raises a violation.
+    import re as _re
+    repo_root = os.environ.get("VERIF_REPO", "/repo")
+    for k in known:
+        sc = k.get("scan")
+        if not sc or not (k["property"] == pid or pid in k.get("also", [])):
+            continue
+        try:
+            lock = open(os.path.join(repo_root, sc["lock_file"])).read()
+            hit = sc["lock_has"] in lock
+            n = 0
+            if hit:
+                rx = _re.compile(sc["grep"])
+                for root, _dirs, files in os.walk(os.path.join(repo_root, sc["path"])):
+                    if "/tests" in root:
+                        continue
+                    for fn in files:
+                        if fn.endswith(".rs"):
+                            n += len(rx.findall(open(os.path.join(root, fn), errors="replace").read()))
+            if hit and n >= sc.get("min_hits", 1):
+                known_hits[k["id"]] = k
+                all_obs.append(dict(id="scan:%s" % k["id"], engine="scan (Cargo.lock + grep)", status="known-finding", solver_ms=0,
+                                    note="%d unguarded call sites, dependency %s" % (n, sc["lock_has"].replace("\n", " "))))
+        except OSError:
+            pass
+
     # ---------------- report
     for k in known_hits.values():
         print("KNOWN-FINDING: property=%s %s [%s]" % (pid, k["what"], k["id"]))
